@@ -137,7 +137,7 @@ def run(prog, rep, tier):
     arg = ('A', (('T', tty['elems'][0], ('p', 'bytes')), const_int(0)))
     runner.run_entry(E2, msg_fb, [arg])
     n2 = rep.absorb_engine(E2, rule='O1-panic-freedom', keyfilter=lambda o: o['fn'].endswith(('::from_bytes', '::from_reader')) and 'Message' in o['fn'])
-    rep.floor('from_bytes obligations', n2, 5)
+    rep.floor('from_bytes obligations', n2, 4)
     ext.update(E2.ext_calls)
     for b in prog.bodies.values():
         for bi, bb in enumerate(b['blocks']):
